@@ -248,6 +248,7 @@ pub struct Ctx {
     pub notes: Vec<String>,
     pub per_config: BTreeMap<String, u64>,
     next_sample_at: u64,
+    sampled_subs: HashSet<String>,
     pub max_violations_per_sub: usize,
 }
 
@@ -275,6 +276,7 @@ impl Ctx {
             notes: Vec::new(),
             per_config: BTreeMap::new(),
             next_sample_at: 1,
+            sampled_subs: HashSet::new(),
             max_violations_per_sub: 1,
         }
     }
@@ -330,7 +332,11 @@ impl Ctx {
     pub fn mark_exhaustive(&mut self, sub: &str, space: &str) {
         let e = self.subs.entry(sub.to_string()).or_default();
         e.exhaustive = true;
-        e.space = space.to_string();
+        if e.space.is_empty() {
+            e.space = space.to_string();
+        } else if !e.space.contains(space) {
+            e.space = format!("{} ; {}", e.space, space);
+        }
     }
 
     fn is_listed(&self, sig: &str) -> bool {
@@ -341,7 +347,9 @@ impl Ctx {
     /// Returns the verdict after known-finding resolution (Known only if listed).
     pub fn run_case(&mut self, sub: &str, cfg: &'static dyn Config, input: &Input, check: CheckFn, counting: bool) -> Verdict {
         let mut rec = Rec::default();
-        if counting && self.cases + 1 >= self.next_sample_at && self.samples.len() < 14 {
+        // samples: the first case of every sub-check, then a geometric schedule over all cases
+        let first_of_sub = counting && !sub.starts_with("regress:") && self.next_sample_at != u64::MAX && !self.sampled_subs.contains(sub);
+        if counting && self.samples.len() < 20 && (first_of_sub || self.cases + 1 >= self.next_sample_at) {
             rec.want_note = true;
         }
         CUR_INPUT.store(input as *const Input as *mut Input, Ordering::Release);
@@ -392,7 +400,10 @@ impl Ctx {
                 }
                 s["nontrivial"] = Value::Bool(rec.nontrivial);
                 self.samples.push(s);
-                self.next_sample_at = if self.next_sample_at < 3 { self.next_sample_at + 1 } else { self.next_sample_at.saturating_mul(7) };
+                self.sampled_subs.insert(sub.to_string());
+                if self.cases >= self.next_sample_at {
+                    self.next_sample_at = (self.cases + 1).saturating_mul(6);
+                }
             }
         }
         v
